@@ -52,6 +52,8 @@ static int sweep() {
       for (const char *pre : {"sopt=", "sopt ", "iopt=1 sopt=", "sopt= "}) { ++n; if (parse_one((std::string(pre) + v).c_str(), false)) return 10; }
     std::vector<std::string> next; for (const std::string &v : cur) for (char c : alpha) next.push_back(v + c); cur.swap(next);
   }
+  // long option names (the name buffer grows beyond its inline capacity)
+  for (int len : {1, 8, 49, 50, 51, 64, 74, 75, 76, 77, 100, 200, 1000}) { ++n; if (parse_one((std::string(len, 'x') + "=1 iopt=2").c_str(), false)) return 10; }
   // integer values: inside the range of int they are stored exactly, outside they are rejected (never wrapped)
   for (const char *v : {"2147483647", "-2147483648", "0", "-1", "2147483648", "-2147483649", "4294967297", "99999999999999999999", "-99999999999999999999"}) {
     std::string text = std::string("iopt=") + v; ++n;
